@@ -13,6 +13,7 @@ float).  A threshold may be `±inf` (`XR`); a NaN threshold compares `False` as 
 -/
 import FairModel.Model.Proto
 import FairModel.Generated.EgPredict
+import FairModel.Generated.ThresholderSrc
 
 namespace Pmf
 
@@ -28,14 +29,15 @@ structure ThrOp where
   thr : XR
 deriving Repr, DecidableEq
 
-/-- `y_hat > t` / `y_hat < t` for a finite score, as 0/1 -/
+/-- `y_hat > t` / `y_hat < t` for a finite score, as 0/1; the finite-threshold comparisons are LIFTED from
+    `ThresholdOperation.__call__` (`Generated/ThresholderSrc.lean`) -/
 def ThrOp.apply (o : ThrOp) (s : Rat) : Rat :=
   match o.cmp, o.thr with
-  | .gt, .fin t => if s > t then 1 else 0
+  | .gt, .fin t => if ThresholderSrc.opGt s t then 1 else 0
   | .gt, .ninf => 1
   | .gt, .pinf => 0
   | .gt, .nan => 0
-  | .lt, .fin t => if s < t then 1 else 0
+  | .lt, .fin t => if ThresholderSrc.opLt s t then 1 else 0
   | .lt, .ninf => 0
   | .lt, .pinf => 1
   | .lt, .nan => 0
@@ -53,27 +55,27 @@ structure Rule where
 deriving Repr, DecidableEq
 
 /-- `p0 * operation0(s) + p1 * operation1(s)` -/
-def Rule.interp (r : Rule) (s : Rat) : Rat := r.p0 * r.op0.apply s + r.p1 * r.op1.apply s
+def Rule.interp (r : Rule) (s : Rat) : Rat := ThresholderSrc.interp r.p0 (r.op0.apply s) r.p1 (r.op1.apply s)
 
 /-- `p_ignore * prediction_constant + (1 - p_ignore) * interpolated` when `p_ignore` is present -/
 def Rule.positive (r : Rule) (s : Rat) : Rat :=
   match r.ignore with
   | none => r.interp s
-  | some (pi, c) => pi * c + (1 - pi) * r.interp s
+  | some (pi, c) => ThresholderSrc.withIgnore pi c (r.interp s)
 
-/-- `_pmf_predict` for one row: start from `0.0`, and for every `(a, interpolation)` of the dict
+/-- `_pmf_predict` for one row: start from `0.0 * score` (lifted), and for every `(a, interpolation)` of the dict
     overwrite the rows whose (merged) sensitive feature equals `a`. -/
 def thrPositive (dict : List (String × Rule)) (g : String) (s : Rat) : Rat :=
-  dict.foldl (fun acc e => if g = e.1 then e.2.positive s else acc) 0
+  dict.foldl (fun acc e => if g = e.1 then e.2.positive s else acc) (ThresholderSrc.initialProb s)
 
 /-- the returned row `[1 - p, p]` -/
-def pmfRow (p : Rat) : Rat × Rat := (1 - p, p)
+def pmfRow (p : Rat) : Rat × Rat := (ThresholderSrc.col0 p, ThresholderSrc.col1 p)
 
 def thrPmf (dict : List (String × Rule)) (rows : List (String × Rat)) : List (Rat × Rat) :=
   rows.map (fun r => pmfRow (thrPositive dict r.1 r.2))
 
 /-- `(positive_probs >= random_state.rand(n)) * 1` -/
-def bernoulli (p u : Rat) : Nat := if p ≥ u then 1 else 0
+def bernoulli (p u : Rat) : Nat := if ThresholderSrc.drawsOne p u then 1 else 0
 
 /-- hypotheses of the range theorem, decidable; `eps` is the slack allowed on `p0 + p1 = 1`
     (the fitted numbers are floats: `p0 = 1 - p1` holds up to one rounding) -/
